@@ -83,6 +83,12 @@ pub(crate) const READ_PROBES: bool = true; //@FLAG read_probes
 static mut RECORD_READS: u32 = 0;
 static mut ADVERSARY: *mut Seg = std::ptr::null_mut();
 static mut LOADS: u32 = 0;
+// "exactly one complete publication lands during the call": at shared access number FLIP_AT the segment
+// switches (atomically, as seen at call granularity) to generation FLIP_GEN / record FLIP_REC
+static mut FLIP_SEG: *mut Seg = std::ptr::null_mut();
+static mut FLIP_AT: u32 = 0;
+static mut FLIP_GEN: u16 = 0;
+static mut FLIP_REC: Option<ClockErrorBound> = None;
 
 /// Woven in front of the record copy in the retry loop: counts record reads.
 pub(crate) fn at_record_read() {
@@ -98,6 +104,10 @@ pub(crate) fn at_record_read() {
 pub(crate) fn environment_step() {
     unsafe {
         LOADS += 1;
+        if !FLIP_SEG.is_null() && LOADS == FLIP_AT {
+            (*FLIP_SEG).hdr.generation.store(FLIP_GEN, Ordering::Relaxed);
+            (*FLIP_SEG).ceb = FLIP_REC.unwrap();
+        }
         if !ADVERSARY.is_null() {
             (*ADVERSARY).hdr.version.store(kani::any(), Ordering::Relaxed);
             (*ADVERSARY).hdr.generation.store(kani::any(), Ordering::Relaxed);
@@ -229,6 +239,7 @@ extern "C" {
     // state of harness/clock-bound-shm/posix_model.c
     pub(crate) static mut verif_file: [u8; MODEL_CONTENT];
     pub(crate) static mut verif_file_len: u64;
+    pub(crate) static mut verif_fd: i32;
     pub(crate) static mut verif_missing: i32;
     pub(crate) static mut verif_is_dir: i32;
     pub(crate) static mut verif_mmap_fails: i32;
@@ -264,6 +275,9 @@ fn c16_open_any_file() {
         verif_is_dir = is_dir as i32;
         verif_mmap_fails = mmap_fails as i32;
         verif_errno = en;
+        let fd: i32 = kani::any();
+        kani::assume(0 <= fd && fd < 1024);
+        verif_fd = fd;
     }
     let path = std::ffi::CStr::from_bytes_with_nul(b"/p\0").unwrap();
     let r = ShmReader::new(path);
@@ -318,4 +332,63 @@ fn c16_open_any_file() {
     kani::cover!(should_open, "C16.cover.opens");
     kani::cover!(!missing && !is_dir && header_valid && size < 72, "C16.cover.too_small");
     kani::cover!(!missing && !is_dir && len < 16, "C16.cover.truncated");
+}
+
+
+// =================================================================================================
+// C03 "catch up once the writer is idle", one step beyond the quiescent case: exactly ONE complete
+// publication (g1 -> g2, both even and non-zero, record replaced) lands at an arbitrary point DURING
+// the call and the segment is quiet afterwards.  The call must not fail and must not return a mixture:
+// it returns the old record (if it had finished reading before the switch), or catches up with the new
+// one - and it needs at most two loop iterations (the unwinding bound is the obligation).
+// =================================================================================================
+#[kani::proof]
+#[kani::unwind(3)]
+#[kani::stub(std::hint::spin_loop, no_op)]
+#[kani::stub(std::thread::yield_now, no_op)]
+fn c03_snapshot_one_publication_during_the_call() {
+    if !READ_PROBES {
+        return;
+    }
+    let mut seg = any_seg();
+    let ver = seg.hdr.version.load(Ordering::Relaxed);
+    let g1 = seg.hdr.generation.load(Ordering::Relaxed);
+    kani::assume(ver != 0 && g1 != 0 && g1 & 1 == 0);
+    let rec1 = seg.ceb;
+    let g2: u16 = kani::any();
+    kani::assume(g2 != 0 && g2 & 1 == 0 && g2 != g1);
+    let rec2 = any_ceb();
+    let cache = any_ceb();
+    let cached_gen: u16 = kani::any();
+    kani::assume(cached_gen != g1 && cached_gen != g2);
+    let flip_at: u32 = kani::any();
+    kani::assume(1 <= flip_at && flip_at <= 6);
+    let mut r = reader_over(&mut seg, cache, cached_gen);
+    unsafe {
+        FLIP_SEG = &mut seg;
+        FLIP_AT = flip_at;
+        FLIP_GEN = g2;
+        FLIP_REC = Some(rec2);
+    }
+    let got = match r.snapshot() {
+        Ok(c) => Some(*c),
+        Err(_) => None,
+    };
+    unsafe {
+        FLIP_SEG = std::ptr::null_mut();
+    }
+    kani::assert(got.is_some(), "C03.one_update.never_an_error");
+    let got = got.unwrap();
+    let old = ceb_eq(&got, &rec1) && r.snapshot_gen == g1;
+    let new = ceb_eq(&got, &rec2) && r.snapshot_gen == g2;
+    kani::assert(old || new, "C03.one_update.returns_one_whole_publication_with_its_generation");
+    // if the switch happened before the call's first generation load, the call sees only the new state
+    if flip_at <= 2 {
+        kani::assert(new, "C03.one_update.switch_before_the_first_generation_load_is_caught_up");
+    }
+    // the switch lands between the record copy and the confirming load, or later: the first read is
+    // discarded and the call catches up with the new publication in its second iteration
+    std::mem::forget(r);
+    kani::cover!(old, "C03.cover.one_update_old");
+    kani::cover!(new && flip_at >= 3, "C03.cover.one_update_caught_up_after_retry");
 }
